@@ -179,28 +179,38 @@ Fixpoint be_groups_aux (w : nat) (bs : bytes) (acc : Z) (k : nat) : list Z :=
   end.
 Definition be_groups (w : nat) (bs : bytes) : list Z := be_groups_aux w bs 0 w.
 
-Definition dec_leaf (code : Z) (payload : bytes) (len : Z) : option item :=
-  let ints (w : nat) (k : ikind) :=
-      if len mod Z.of_nat w =? 0
-      then new_int w (map (fun v => GInt k (to_signed w v)) (be_groups w payload)) else None in
-  let uints (w : nat) (k : ikind) :=
-      if len mod Z.of_nat w =? 0
-      then new_uint w (map (fun v => GInt k v) (be_groups w payload)) else None in
-  match code with
-  | 16 => new_ascii payload
-  | 8 => new_binary (map (fun b => GInt Kint (b2z b)) payload)
-  | 9 => new_boolean (map (fun b => GBool (negb (b2z b =? 0))) payload)
-  | 36 => if len mod 4 =? 0 then new_float 4 (map GF32 (be_groups 4 payload)) else None
-  | 32 => if len mod 8 =? 0 then new_float 8 (map GF64 (be_groups 8 payload)) else None
-  | 25 => ints 1%nat Kint8
-  | 26 => ints 2%nat Kint16
-  | 28 => ints 4%nat Kint32
-  | 24 => ints 8%nat Kint64
-  | 41 => uints 1%nat Kuint8
-  | 42 => uints 2%nat Kuint16
-  | 44 => uints 4%nat Kuint32
-  | 40 => uints 8%nat Kuint64
+Definition kind_of_code (c : Z) : option (kind * nat) :=
+  match c with
+  | 8 => Some (KBin, 1%nat) | 9 => Some (KBool, 1%nat)
+  | 36 => Some (KFloat, 4%nat) | 32 => Some (KFloat, 8%nat)
+  | 25 => Some (KInt, 1%nat) | 26 => Some (KInt, 2%nat) | 28 => Some (KInt, 4%nat) | 24 => Some (KInt, 8%nat)
+  | 41 => Some (KUint, 1%nat) | 42 => Some (KUint, 2%nat) | 44 => Some (KUint, 4%nat) | 40 => Some (KUint, 8%nat)
   | _ => None
+  end.
+
+Definition int_kind (w : nat) : ikind :=
+  match w with 1%nat => Kint8 | 2%nat => Kint16 | 4%nat => Kint32 | _ => Kint64 end.
+Definition uint_kind (w : nat) : ikind :=
+  match w with 1%nat => Kuint8 | 2%nat => Kuint16 | 4%nat => Kuint32 | _ => Kuint64 end.
+
+(* the Go value the decoder hands to the factory for one element pattern *)
+Definition dec_arg (k : kind) (w : nat) (p : Z) : gval :=
+  match k with
+  | KBin => GInt Kint p
+  | KBool => GBool (negb (p =? 0))
+  | KFloat => match w with 4%nat => GF32 p | _ => GF64 p end
+  | KInt => GInt (int_kind w) (to_signed w p)
+  | KUint => GInt (uint_kind w) p
+  end.
+
+Definition dec_leaf (code : Z) (payload : bytes) (len : Z) : option item :=
+  if code =? 16 then new_ascii payload else
+  match kind_of_code code with
+  | None => None
+  | Some (k, w) =>
+    if len mod Z.of_nat w =? 0
+    then new_leaf k w (map (dec_arg k w) (be_groups w payload))
+    else None
   end.
 
 (* parseMessageText below the message level.  [rem] is the number of bytes in
